@@ -79,6 +79,28 @@ var plain = map[string]func() strategy.Strategy{
 	"WeightedAveragePrice":         func() strategy.Strategy { return svolu.NewWeightedAveragePriceStrategy() },
 }
 
+// Extra returns configurations that are valid inputs of the API but lie outside the documented
+// usage on which the warm-up and rule oracles (C05, C06, C14) are defined; they take part in the
+// reference-free properties only (C03, C04, C09, C18).
+func Extra() []Strat {
+	return []Strat{
+		{
+			// DemaStrategy with the two DEMAs in any order (the documented use has Dema1 faster)
+			Name: "DemaAnyOrder", Params: []reg.Param{per("d1e1", 5), per("d1e2", 5), per("d2e1", 35), per("d2e2", 35)},
+			Build: func(c reg.Config) strategy.Strategy {
+				s := strend.NewDemaStrategy()
+				s.Dema1.Ema1.Period, s.Dema1.Ema2.Period, s.Dema2.Ema1.Period, s.Dema2.Ema2.Period = c.P[0], c.P[1], c.P[2], c.P[3]
+				return s
+			},
+			Warm: func(s strategy.Strategy) int {
+				d := s.(*strend.DemaStrategy)
+				return maxInt(d.Dema1.IdlePeriod(), d.Dema2.IdlePeriod())
+			},
+			Doc: "no rule oracle: reference-free properties only",
+		},
+	}
+}
+
 func base() []Strat {
 	return []Strat{
 		{
